@@ -206,3 +206,27 @@ silent('C10', 'machine-worker-cancel-neq',
        lambda p: M.replace_node(p, N_MAC, 'Machine.worker', M.if_testing('event is not chosen_put_event'), sub('event is not chosen_put_event', 'event != chosen_put_event')))
 silent('C10', 'sink-extra-logging',
        lambda p: M.insert_before(p, N_SNK, 'Sink.behaviour', M.assign_to("self.stats['num_item_received']"), 'print("got one")'))
+
+# ============================================================================================ C03
+fire('C03', 'machine-worker-silent-drop', 'C03.R1', 'Machine.worker',
+     lambda p: M.delete_stmt(p, N_MAC, 'Machine.worker', M.assign_to("self.stats['num_item_discarded']"), which=0))
+fire('C03', 'machine-worker-put-twice', 'C03.R', 'Machine.worker',
+     lambda p: M.insert_after(p, N_MAC, 'Machine.worker', M.assign_to('y'), 'y = outedge_to_put.put(put_event, item)'))
+fire('C03', 'source-generated-not-counted', 'C03.R2', 'Source.behaviour',
+     lambda p: M.delete_stmt(p, N_SRC, 'Source.behaviour', M.assign_to("self.stats['num_item_generated']")))
+fire('C03', 'sink-received-counted-twice', 'C03.R', 'Sink.behaviour',
+     lambda p: M.insert_after(p, N_SNK, 'Sink.behaviour', M.assign_to("self.stats['num_item_received']"), "self.stats['num_item_received'] += 1"))
+fire('C03', 'splitter-item-skipped', 'C03.R1', 'Splitter.worker',
+     lambda p: M.insert_after(p, N_SPL, 'Splitter.worker', M.assign_to('item'), 'if item is None:\n    continue'), accept_analysis_error=False)
+fire('C03', 'combiner-item-not-packed', 'C03.R1', 'Combiner.behaviour',
+     lambda p: M.delete_stmt(p, N_CMB, 'Combiner.behaviour', M.stmt_calling('.add_item')))
+fire('C03', 'machine-processed-double-count', 'C03.R2', 'Machine.worker',
+     lambda p: M.insert_before(p, N_MAC, 'Machine.worker', M.assign_to('itemput'), "self.stats['num_item_processed'] += 1"))
+fire('C03', 'source-push-item-no-put', 'C03.R1', 'Source._push_item',
+     lambda p: M.replace_node(p, N_SRC, 'Source._push_item', M.assign_to('y'), 'y = True'))
+fire('C03', 'machine-behaviour-item-not-handed-over', 'C03.R1', 'Machine.behaviour',
+     lambda p: M.replace_node(p, N_MAC, 'Machine.behaviour', M.assign_to('proc'), sub('self.item_in_process, next_processing_time', 'None, next_processing_time')))
+silent('C03', 'machine-worker-renamed-local',
+       lambda p: M.replace_node(p, N_MAC, 'Machine._push_item', lambda n: isinstance(n, ast.If), sub('put_token', 'tok')))
+silent('C03', 'sink-logging',
+       lambda p: M.insert_after(p, N_SNK, 'Sink.behaviour', M.assign_to("self.stats['num_item_received']"), 'print("received")'))
